@@ -1,13 +1,13 @@
 #!/bin/bash
 # usage (from a snapshot of /verif, e.g. under `vp run --with-repo`): tools/multiseed_here.sh <tier> <seed> ...
-# Runs every check of this tree against $VP_RUN_REPO (or /repo) and prints one summary line per (seed, property).
+# Runs every check (or those named in $PROPS) of this tree against $VP_RUN_REPO (or /repo) and prints one summary line per (seed, property).
 ROOT=$(cd "$(dirname "$0")/.." && pwd)
 TIER=$1; shift
 export VERIF_REPO=${VP_RUN_REPO:-/repo} VERIF_EVIDENCE_DIR=$ROOT/.evidence-run VERIF_REPLAY_DIR=$ROOT/.replays-run
 export GOFLAGS=-mod=mod GOPROXY=off GOSUMDB=off GOTOOLCHAIN=local
 cd "$ROOT" && ./vcheck warm >/dev/null 2>&1
 for SEED in "$@"; do
-  for P in C01 C02 C03 C04 C05 C06 C07 C08 C09 C10 C11 C12 C13 C14 C15 C16 C17 C18 C19 C20; do
+  for P in ${PROPS:-C01 C02 C03 C04 C05 C06 C07 C08 C09 C10 C11 C12 C13 C14 C15 C16 C17 C18 C19 C20}; do
     S=$(date +%s); OUT=$(VERIF_SEED=$SEED ./vcheck $P --tier $TIER 2>&1); RC=$?
     echo "seed=$SEED $P rc=$RC $(( $(date +%s) - S ))s viol=$(echo "$OUT" | grep -c '^VIOLATION') known=$(echo "$OUT" | grep -c '^KNOWN-FINDING') $(echo "$OUT" | grep -m1 'INCONCLUSIVE\|rejected\|not linearizable' | cut -c1-300)"
   done
